@@ -24,6 +24,7 @@
    the element lists is [mat_prod]. *)
 From Coq Require Import ZArith List Bool Arith.
 From ADV Require Import Base.Fl C01.Model.
+From ADV Require C10.Model.
 Import ListNotations.
 
 Section ScalarSpec.
@@ -103,6 +104,6 @@ End ScalarSpec.
 
 (* ------------------------------------------------------------------ matrices *)
 Local Open Scope Z_scope.
-(* entry (i,j) of the product of two matrices given as functions *)
-Definition dotZ (a b : Z -> Z -> Z) (i j : Z) (m1 : nat) : Z :=
-  fold_left (fun t k => t + a i (Z.of_nat k) * b (Z.of_nat k) j) (seq 0 m1) 0.
+(* entry (i,j) of the product of two matrices given as functions, summed in the order of the Go loop *)
+Definition dotZ (a b : Z -> Z -> Z) (i j m1 : Z) : Z :=
+  fold_left (fun t k => t + a i k * b k j) (C10.Model.zseq m1) 0.
